@@ -2,11 +2,12 @@
 Reference executor (DESIGN 3.6): the oracle's side of the wall.
 
 A reference SERVER process is forked at the start of a run, before the first client operation, so it holds a
-pristine interpreter state (module-level defaults, config, RNG, class attributes).  The server never executes
-a library operation itself: for every request it forks a short-lived WORKER that builds a pristine twin of the
-requested node from the recipe, performs ONLY the requested read, canonicalises the outcome and pipes it back.
-The server therefore stays pristine by construction.  Each worker also fingerprints its own process-global
-state before and after the read: a difference means a single pristine operation mutates process-global state.
+pristine interpreter state (module-level defaults, config, class attributes).  The server never executes a
+library operation itself: it forks a WORKER that, per request, builds a pristine twin of the requested node
+from the recipe, performs ONLY the requested read, canonicalises the outcome and pipes it back.  The worker
+fingerprints its own process-global state before and after every read: a difference means a single pristine
+operation mutates process-global state - it is reported and the worker is replaced by a fresh fork of the
+(still pristine) server.
 
 `InprocReference` is the same logic in-process (debugging only; used by `--oracle inproc`).
 """
@@ -88,6 +89,16 @@ def twin_read(specs, node_id, q, twice=False):
 
 
 class ForkReference:
+    """
+    parent (system-under-test timeline)  <->  SERVER (pristine, never runs library code)  ->  WORKER (runs twin reads)
+
+    The worker is forked from the server and serves reads one after the other, each on a twin rebuilt from raw
+    bytes.  Before every read it re-seeds the global numpy generator (so the reference always runs under a global
+    RNG state unrelated to the timeline's) and after every read it re-fingerprints its process-global state: if
+    that changed, the finding is reported with the reply and the worker retires - the server forks a fresh one
+    from its own pristine state for the next request.  Forks per run: 1 server + 1 worker (+1 per tainting read).
+    """
+
     def __init__(self):
         self.p2c_r, self.p2c_w = os.pipe()
         self.c2p_r, self.c2p_w = os.pipe()
@@ -108,37 +119,97 @@ class ForkReference:
     # ---- server side (pristine; never runs a library operation itself)
     def _serve(self):
         specs = {}
+        worker = None  # (pid, to_worker_fd, from_worker_fd)
+
+        def spawn():
+            s2w_r, s2w_w = os.pipe()
+            w2s_r, w2s_w = os.pipe()
+            wpid = os.fork()
+            if wpid == 0:
+                try:
+                    os.close(s2w_w)
+                    os.close(w2s_r)
+                    self._work(s2w_r, w2s_w, dict(specs))
+                finally:
+                    os._exit(0)
+            os.close(s2w_r)
+            os.close(w2s_w)
+            return [wpid, s2w_w, w2s_r]
+
+        def retire(w):
+            for fd in (w[1], w[2]):
+                try:
+                    os.close(fd)
+                except OSError:
+                    pass
+            try:
+                os.waitpid(w[0], 0)
+            except ChildProcessError:
+                pass
+
         while True:
             try:
                 msg = _recv(self.p2c_r)
             except EOFError:
-                return
+                break
             kind = msg[0]
             if kind == "spec":
                 specs[msg[1]["id"]] = msg[1]
+                if worker is not None:
+                    _send(worker[1], msg)
             elif kind == "quit":
-                return
+                break
             elif kind == "read":
-                _, node_id, q, twice = msg
-                wpid = os.fork()
-                if wpid == 0:
-                    code = 0
-                    try:
+                if worker is None:
+                    worker = spawn()
+                try:
+                    _send(worker[1], msg)
+                    status = os.read(worker[2], 1)
+                except OSError:
+                    status = b""
+                if status != b"k":  # tainted (b"t") or dead (b""): never reuse
+                    if status == b"":
                         try:
-                            out = ("ok",) + twin_read(specs, node_id, q, twice)
-                        except BaseException:  # noqa: BLE001
-                            out = ("error", traceback.format_exc())
-                        _send(self.c2p_w, out)
-                    except BaseException:  # noqa: BLE001
-                        code = 3
-                    finally:
-                        os._exit(code)
-                _, st = os.waitpid(wpid, 0)
-                if st != 0:
-                    try:
-                        _send(self.c2p_w, ("error", f"reference worker exited with status {st}"))
-                    except Exception:  # noqa: BLE001
-                        return
+                            _send(self.c2p_w, ("error", "reference worker died"))
+                        except Exception:  # noqa: BLE001
+                            break
+                    retire(worker)
+                    worker = None
+        if worker is not None:
+            try:
+                _send(worker[1], ("quit",))
+            except Exception:  # noqa: BLE001
+                pass
+            retire(worker)
+
+    # ---- worker side
+    def _work(self, rfd, status_fd, specs):
+        import numpy as np
+
+        while True:
+            try:
+                msg = _recv(rfd)
+            except EOFError:
+                return
+            if msg[0] == "spec":
+                specs[msg[1]["id"]] = msg[1]
+                continue
+            if msg[0] == "quit":
+                return
+            _, node_id, q, twice = msg
+            tainted = False
+            try:
+                np.random.seed(20241113)
+                tree, info = twin_read(specs, node_id, q, twice)
+                tainted = bool(info.get("globals_changed"))
+                out = ("ok", tree, info)
+            except BaseException:  # noqa: BLE001
+                out = ("error", traceback.format_exc())
+                tainted = True
+            _send(self.c2p_w, out)
+            os.write(status_fd, b"t" if tainted else b"k")
+            if tainted:
+                return
 
     # ---- client side
     def add_spec(self, spec):
